@@ -535,6 +535,9 @@ def replay(job):
                         s.run(until=lambda: len(dev.upq) > 0, horizon=s.now + 50.0)
                         _quiesce(s, False)
                     elif name == 'DevReply':
+                        if not dev.upq:
+                            mism = mism or (nsteps, name, 'no request at the device')
+                            break
                         dev.dev_reply()
                     elif name in ('Deliver', 'Dup'):
                         i = dev.find(args[0]['ch'], args[0]['d'])
@@ -564,6 +567,9 @@ def replay(job):
                         _quiesce(s, False)
                     else:
                         raise common.MachineryError('replay: unknown action %s' % name)
+                    if s.steps >= s.max_steps:
+                        mism = mism or (nsteps, name, 'step budget exhausted')
+                        break
                     ses.finalize()
                     st = ses.project(kind)
                     f = ses.fetcher.get(kind)
@@ -575,20 +581,20 @@ def replay(job):
                     real['down'] = len(dev.bag)
                     real['pend'] = len(cf._answer_patterns)
                     real['idents'] = [e['ident'] for e in lib_table(f.toc)] if f is not None else []
-                    want = {'lt': post['lt'], 'fstate': post['fstate'], 'cb': post['cbOn'], 'reqIdx': post['reqIdx'],
-                            'nItems': post['nItems'], 'ntoc': len(post['toc']), 'done': post['done'],
-                            'xcount': post['xcount'], 'xreq': post['xreq'], 'up': len(post['up']),
-                            'down': _bag_size(post['down']), 'pend': len(post['pend']),
-                            'idents': [e['ident'] for e in post['toc']]}
+                    want = post
                     if real == want:
                         matched += 1
                     elif mism is None:
                         mism = (nsteps, name, {k: (real[k], want[k]) for k in want if real[k] != want[k]})
                 # the behaviour is over: let the download complete undisturbed
                 dev.manual = None
-                while dev.upq:
+                for _ in range(10000):
+                    if not dev.upq:
+                        break
                     dev.dev_reply()
-                while dev.bag:
+                for _ in range(10000):
+                    if not dev.bag:
+                        break
                     dev.deliver(0)
                 s.run(until=lambda: ses.connected_evt.is_set(), horizon=s.now + 60.0)
                 s.run(horizon=s.now)
@@ -642,7 +648,15 @@ def behaviour_job(beh):
             name, args = _infer(prev, st)
         if name == 'Start':
             cfg = st['cfg']
-        steps.append((name, args, st))
+            args = []
+        # the projection of the post-state that the real objects are compared with (plain data: a
+        # job is also the replay payload of a violation)
+        want = {'lt': st['lt'], 'fstate': st['fstate'], 'cb': st['cbOn'], 'reqIdx': st['reqIdx'],
+                'nItems': st['nItems'], 'ntoc': len(st['toc']), 'done': st['done'],
+                'xcount': st['xcount'], 'xreq': st['xreq'], 'up': len(st['up']),
+                'down': _bag_size(st['down']), 'pend': len(st['pend']),
+                'idents': [e['ident'] for e in st['toc']]}
+        steps.append((name, args, want))
         prev = st
     if cfg is None:
         return None
